@@ -280,6 +280,9 @@ def run_cfg(ctx, fx):
     # R11.3 the reaction to the wrapper's outcome
     A = loops.lifecycle_alphabet()
     A.upvar_bools = True
+    # "carries on with its state intact": between the verdict and the next dequeue the loop does nothing to the context
+    # (any crate-local function that is lent the context mutably counts; logging does not)
+    A.calls = A.calls + [("ctxmut", lambda t: bool(t.get("callee_local")) and any(a.startswith("&mut context::Context<") for a in t.get("argtys", [])))]
     n = nfa.build(rb, A, fx, depth=2)
     # the label of a branch on fail_on_timeout in the reacting body
     flag_labels = set()
